@@ -340,7 +340,10 @@ def run(ctx):
             en = [x for x in subterms(t[1][1][1]) if is_call(x, "Iterator::enumerate")]
             if len(en) != 1:
                 return False
-            src = strip_refs(call_args(en[0])[0])
+            return nonempty_fields_of_split(call_args(en[0])[0])
+        def nonempty_fields_of_split(src):
+            """src is `<something>.split(..).filter(|s| !s.is_empty())`: an iterator over the non-empty pieces, in order"""
+            src = strip_refs(src)
             if not (is_call(src, "Iterator::filter") and len(call_args(src)) == 2 and is_call(strip_refs(call_args(src)[0]), "[T]>::split")):
                 return False
             clo = strip_refs(call_args(src)[1])
@@ -351,6 +354,76 @@ def run(ctx):
                 return False
             r = rp[0].end[1]
             return isinstance(r, tuple) and r[0] == "unop" and r[1] == "Not" and is_call(r[2], "[T]>::is_empty", "::is_empty") and deval(call_args(r[2])[0]) == ("param", 2)
+        def judge_push(p, e):
+            """D2-NAME-RAW for one PathBuf::push event e on path p"""
+            a = e.args[1]
+            raw = is_call(strip_refs(a), "::from_bytes") and not mentions(a, lambda s: is_call(s, *LOSSY_CALLS))
+            ix = [s for s in subterms(a) if is_index_call(s)]
+            rng = agg_variant(call_args(ix[0])[1]) if ix else None
+            inner = bool(rng) and rng[1] == "Range" and const_int(rng[2][0]) == 1 and isinstance(rng[2][1], tuple) and rng[2][1][0] == "binop" and rng[2][1][1] == "Sub" and const_int(rng[2][1][3]) == 1
+            # the field's first byte is '(' and its last is ')', however the two tests are spelled (== taken, != not taken)
+            fld = strip_refs(call_args(ix[0])[0]) if ix else None
+            par = set()
+            for c in p.conds():
+                ae = asserts_eq_const(c)
+                if ae is None or ae[1] not in (40, 41) or not (isinstance(ae[0], tuple) and ae[0][0] == "index"):
+                    continue
+                base = ae[0][1]
+                while isinstance(base, tuple) and base and base[0] == "deref":
+                    base = strip_refs(base[1])
+                at = strip_refs(ae[0][2])
+                first = const_int(at) == 0
+                lastp = isinstance(at, tuple) and at[0] == "binop" and at[1] == "Sub" and const_int(at[3]) == 1 and length_of(at[2]) is not None
+                if base == fld and ((ae[1] == 40 and first) or (ae[1] == 41 and lastp)):
+                    par.add(ae[1])
+            # ... or as s.starts_with(b"(") / s.ends_with(b")") (one-byte literals: the first / the last byte)
+            for c in p.conds():
+                t_ = c.term
+                if is_call(t_, "[T]>::starts_with", "[T]>::ends_with") and len(call_args(t_)) == 2 and c.fact == ("eq", True) and strip_refs(call_args(t_)[0]) == fld:
+                    lit = const_bytes(call_args(t_)[1])
+                    if lit == "(" and is_call(t_, "[T]>::starts_with"):
+                        par.add(40)
+                    if lit == ")" and is_call(t_, "[T]>::ends_with"):
+                        par.add(41)
+            # ... or as the slice pattern [b'(', name @ .., b')']: the bound part is field[1 : len-1], the first byte was matched
+            # against '(' and the last against ')'
+            fb_ = strip_refs(a)
+            if raw and is_call(fb_, "::from_bytes"):
+                x_ = strip_refs(call_args(fb_)[0])
+                if isinstance(x_, tuple) and len(x_) == 3 and x_[0] == "proj" and x_[2] == "subslice[1:-1]":
+                    base_ = deval(x_[1])
+                    ends = set()
+                    for c in p.conds():
+                        ae = asserts_eq_const(c)
+                        if ae is not None and isinstance(ae[0], tuple) and ae[0][0] == "index" and deval(ae[0][1]) == base_:
+                            i_ = const_int(ae[0][2])
+                            if (i_, ae[1]) in ((0, 40), (-1, 41)):
+                                ends.add(ae[1])
+                    if ends == {40, 41}:
+                        inner, par = True, {40, 41}
+            # the same cut written with the slice API: s.strip_prefix(b"(") and then .strip_suffix(b")") of what is left
+            def payload_of(x, callee, lit):
+                x = strip_refs(x)
+                if isinstance(x, tuple) and x and x[0] == "field" and x[2] == 0 and isinstance(x[1], tuple) and x[1][0] == "downcast" and x[1][2] == "Some":
+                    c_ = strip_refs(x[1][1])
+                    if is_call(c_, callee) and len(call_args(c_)) == 2 and const_bytes(call_args(c_)[1]) == lit:
+                        return call_args(c_)[0]
+                return None
+            if raw and not (inner and par == {40, 41}):
+                fb = strip_refs(a)
+                mid = payload_of(call_args(fb)[0], "[T]>::strip_suffix", ")") if is_call(fb, "::from_bytes") else None
+                whole = payload_of(mid, "[T]>::strip_prefix", "(") if mid is not None else None
+                w_ = strip_refs(whole) if whole is not None else None
+                # the field itself: the piece the split yields, directly or as the second half of an enumerate() item
+                if isinstance(w_, tuple) and len(w_) > 2 and w_[0] == "field" and w_[2] == 1 and isinstance(w_[1], tuple) and w_[1][0] == "field" and w_[1][2] == 0 \
+                        and enum_index_of_nonempty_fields(("field", w_[1], 0, "0")):
+                    inner = True
+                    par = {40, 41}
+                elif whole is not None and isinstance(strip_refs(whole), tuple) and strip_refs(whole)[0] == "field" and is_call(strip_refs(strip_refs(whole)[1][1]), "Split<'a, T, P> as std::iter::Iterator>::next"):
+                    inner = True
+                    par = {40, 41}
+            ctx.check(raw and inner and par == {40, 41}, "D2-NAME-RAW", LFB, "name-field", "name = raw bytes strictly between '(' and ')'",
+                      "the file name is not taken as the raw bytes between a leading '(' and a trailing ')'", body.span_of(e.bb))
         eff = {}
         for p in paths:
             if p.end[0] != "back":
@@ -372,58 +445,53 @@ def run(ctx):
                 for e in p.events:
                     if ev_is(e, "PathBuf::push") and lname.get(e.args[0][1][1] if isinstance(e.args[0], tuple) and e.args[0][0] == "refmut" else -1) == "path":
                         eff.setdefault(k, set()).add("path")
-                        a = e.args[1]
-                        raw = is_call(strip_refs(a), "::from_bytes") and not mentions(a, lambda s: is_call(s, *LOSSY_CALLS))
-                        ix = [s for s in subterms(a) if is_index_call(s)]
-                        rng = agg_variant(call_args(ix[0])[1]) if ix else None
-                        inner = bool(rng) and rng[1] == "Range" and const_int(rng[2][0]) == 1 and isinstance(rng[2][1], tuple) and rng[2][1][0] == "binop" and rng[2][1][1] == "Sub" and const_int(rng[2][1][3]) == 1
-                        # the field's first byte is '(' and its last is ')', however the two tests are spelled (== taken, != not taken)
-                        fld = strip_refs(call_args(ix[0])[0]) if ix else None
-                        par = set()
-                        for c in p.conds():
-                            ae = asserts_eq_const(c)
-                            if ae is None or ae[1] not in (40, 41) or not (isinstance(ae[0], tuple) and ae[0][0] == "index"):
-                                continue
-                            base = ae[0][1]
-                            while isinstance(base, tuple) and base and base[0] == "deref":
-                                base = strip_refs(base[1])
-                            at = strip_refs(ae[0][2])
-                            first = const_int(at) == 0
-                            lastp = isinstance(at, tuple) and at[0] == "binop" and at[1] == "Sub" and const_int(at[3]) == 1 and length_of(at[2]) is not None
-                            if base == fld and ((ae[1] == 40 and first) or (ae[1] == 41 and lastp)):
-                                par.add(ae[1])
-                        # ... or as s.starts_with(b"(") / s.ends_with(b")") (one-byte literals: the first / the last byte)
-                        for c in p.conds():
-                            t_ = c.term
-                            if is_call(t_, "[T]>::starts_with", "[T]>::ends_with") and len(call_args(t_)) == 2 and c.fact == ("eq", True) and strip_refs(call_args(t_)[0]) == fld:
-                                lit = const_bytes(call_args(t_)[1])
-                                if lit == "(" and is_call(t_, "[T]>::starts_with"):
-                                    par.add(40)
-                                if lit == ")" and is_call(t_, "[T]>::ends_with"):
-                                    par.add(41)
-                        # the same cut written with the slice API: s.strip_prefix(b"(") and then .strip_suffix(b")") of what is left
-                        def payload_of(x, callee, lit):
-                            x = strip_refs(x)
-                            if isinstance(x, tuple) and x and x[0] == "field" and x[2] == 0 and isinstance(x[1], tuple) and x[1][0] == "downcast" and x[1][2] == "Some":
-                                c_ = strip_refs(x[1][1])
-                                if is_call(c_, callee) and len(call_args(c_)) == 2 and const_bytes(call_args(c_)[1]) == lit:
-                                    return call_args(c_)[0]
-                            return None
-                        if raw and not (inner and par == {40, 41}):
-                            fb = strip_refs(a)
-                            mid = payload_of(call_args(fb)[0], "[T]>::strip_suffix", ")") if is_call(fb, "::from_bytes") else None
-                            whole = payload_of(mid, "[T]>::strip_prefix", "(") if mid is not None else None
-                            w_ = strip_refs(whole) if whole is not None else None
-                            # the field itself: the piece the split yields, directly or as the second half of an enumerate() item
-                            if isinstance(w_, tuple) and len(w_) > 2 and w_[0] == "field" and w_[2] == 1 and isinstance(w_[1], tuple) and w_[1][0] == "field" and w_[1][2] == 0 \
-                                    and enum_index_of_nonempty_fields(("field", w_[1], 0, "0")):
-                                inner = True
-                                par = {40, 41}
-                            elif whole is not None and isinstance(strip_refs(whole), tuple) and strip_refs(whole)[0] == "field" and is_call(strip_refs(strip_refs(whole)[1][1]), "Split<'a, T, P> as std::iter::Iterator>::next"):
-                                inner = True
-                                par = {40, 41}
-                        ctx.check(raw and inner and par == {40, 41}, "D2-NAME-RAW", LFB, "name-field", "name = raw bytes strictly between '(' and ')'",
-                                  "the file name is not taken as the raw bytes between a leading '(' and a trailing ')'", body.span_of(e.bb))
+                        judge_push(p, e)
+        if not eff:
+            # the same reader without a loop: `let mut fields = line.split(ws).filter(non-empty)` and one `fields.next()` per field, in
+            # order -- field k is what the (k+1)-th call returns.  Nothing else may touch the iterator (a skip / nth / by_ref would
+            # shift the count), and every path must agree on which call feeds which role.
+            NEXT = "Filter as std::iter::Iterator>::next"
+            for p in ret_paths(paths):
+                seq = [e for e in p.events if ev_is(e, NEXT)]
+                if not seq:
+                    continue
+                locs = {e.args[0][1][1] if isinstance(e.args[0], tuple) and e.args[0][0] == "refmut" and isinstance(e.args[0][1], tuple) and e.args[0][1][0] == "loc" else None for e in seq}
+                if len(locs) != 1 or None in locs:
+                    eff = {-1: {"fields are taken from more than one iterator"}}
+                    break
+                L = next(iter(locs))
+                if not nonempty_fields_of_split(seq[0].args[0][1][2]):
+                    eff = {-1: {"the iterator is not the non-empty pieces of the line's split"}}
+                    break
+                idx = {e.term: k for k, e in enumerate(seq)}
+                def touches(t):
+                    # the iterator itself (not what one of the counted calls returned) is part of t
+                    if t in idx:
+                        return False
+                    if isinstance(t, tuple) and len(t) > 1 and t[0] == "loc" and t[1] == L:
+                        return True
+                    return isinstance(t, tuple) and any(touches(x) for x in t if isinstance(x, tuple))
+                others = [e for e in p.events if e.kind == "call" and e not in seq and any(touches(a_) for a_ in e.args)]
+                if others:
+                    eff = {-1: {"the field iterator is also handed to %s" % others[0].name}}
+                    break
+                def field_of(t):
+                    ks = {idx[s_] for s_ in subterms(t) if s_ in idx}
+                    return next(iter(ks)) if len(ks) == 1 else None
+                def strict_text(t):
+                    return mentions(t, lambda s_: is_call(s_, "String::from_utf8", "str::from_utf8", "core::str::from_utf8", "converts::from_utf8")) and not mentions(t, lambda s_: is_call(s_, *LOSSY_CALLS))
+                a_ = agg_variant(p.end[1])
+                if a_ and a_[0] == LINE and a_[1] == "Checksum":
+                    for e in p.calls("Digest as std::str::FromStr>::from_str"):
+                        k = field_of(e.args[0])
+                        eff.setdefault(k if k is not None and strict_text(e.args[0]) else -2, set()).add("action")
+                    k = field_of(a_[2][2])
+                    eff.setdefault(k if k is not None and strict_text(a_[2][2]) else -2, set()).add("value")
+                for e in p.events:
+                    if ev_is(e, "PathBuf::push") and lname.get(e.args[0][1][1] if isinstance(e.args[0], tuple) and e.args[0][0] == "refmut" else -1) == "path":
+                        k = field_of(e.args[1])
+                        eff.setdefault(k if k is not None else -2, set()).add("path")
+                        judge_push(p, e)
         # writer-derived positions
         toks = CK.split(" ")
         want = {toks.index("[digest]"): "action", next(i for i, t in enumerate(toks) if "[name]" in t): "path", next(i for i, t in enumerate(toks) if "[hash]" in t): "value"}
